@@ -6,12 +6,20 @@ use plonky2_field::goldilocks_field::GoldilocksField as G;
 use symf::ctx::{Ctx, Mode, VF};
 use symf::SymF;
 
-fn run_family<F: VF>(family: &str, ctx: &mut Ctx) {
+fn run_family<F>(family: &str, ctx: &mut Ctx)
+where
+    F: VF
+        + plonky2_field::extension::Extendable<2, Extension = plonky2_field::extension::quadratic::QuadraticExtension<F>>
+        + plonky2_field::extension::Extendable<4, Extension = plonky2_field::extension::quartic::QuarticExtension<F>>
+        + plonky2_field::extension::Extendable<5, Extension = plonky2_field::extension::quintic::QuinticExtension<F>>,
+{
     match family {
+        "algebra" => symf::algebra::family::<F>(ctx),
         "gates" => symf::gates::family::<F>(ctx),
         "fri" => symf::fri::family::<F>(ctx),
         "plonk" => symf::plonk::family::<F>(ctx),
         "plonkv" => symf::plonkv::family::<F>(ctx),
+        "transcript" => symf::transcript::family::<F>(ctx),
         _ => panic!("unknown family {family}"),
     }
 }
